@@ -161,11 +161,12 @@ def _truth_outputs(truth):
     """scripted outputs of the status commands for a scheduler that knows exactly the jobs in `truth`
     (id -> 'R' | 'PD'), plus an unrelated job 9 of another user"""
     sq = "".join(f"{j};{s}\n" for j, s in truth.items()) + "9;R\n"
+    lsf_code = {"R": "RUN", "PD": "PEND", "F": "EXIT"}
     xml = "<job_info><queue_info>" + "".join(
         f"<job_list><JB_job_number>{j}</JB_job_number><state>{'r' if s == 'R' else 'qw'}</state></job_list>"
-        for j, s in list(truth.items()) + [("9", "R")]) + "</queue_info></job_info>"
+        for j, s in [(j_, s_) for j_, s_ in truth.items() if s_ != "F"] + [("9", "R")]) + "</queue_info></job_info>"
     return {"squeue": sq, "sacct": "", "qstat": xml,
-            "bjobs": {"__jobs__": {j: ("RUN" if s == "R" else "PEND") for j, s in truth.items()}}}
+            "bjobs": {"__jobs__": {j: lsf_code[s] for j, s in truth.items()}}}
 
 
 def check_job_tables(problems):
@@ -175,16 +176,18 @@ def check_job_tables(problems):
     env = Env()
     try:
         ops = make_ops(env)
-        truth = {"102": "R", "103": "PD"}
-        want = {"101": B.UNKNOWN, "102": B.RUNNING, "103": B.SUBMITTED, "104": B.UNKNOWN}
+        truth = {"102": "R", "103": "PD", "105": "F"}
+        want = {"101": B.UNKNOWN, "102": B.RUNNING, "103": B.SUBMITTED, "104": B.UNKNOWN, "105": B.FAILED}
         for name, (o, _) in ops.items():
-            for order in itertools.permutations(["101", "102", "103", "104"]):
+            ids_ = ["101", "102", "103", "104"] + ([] if name == "sge" else ["105"])     # qstat lists no failed jobs
+            for order in itertools.permutations(ids_):
                 env.outputs(_truth_outputs(truth))
                 got = o.get_job_states(list(order))
                 bad = {j: got.get(j, B.UNKNOWN).name for j in order if got.get(j, B.UNKNOWN) != want[j]}
                 if bad:          # (extra entries for other users' jobs are harmless: only tracked ids are looked up)
-                    problems.append(f"{name}: tracked jobs {list(order)}, the scheduler knows 102 (running) and 103 (pending) "
-                                    f"and has forgotten 101 and 104: reported {({j: s.name for j, s in got.items()})}")
+                    problems.append(f"{name}: tracked jobs {list(order)}, the scheduler knows 102 (running), 103 (pending)"
+                                    f"{'' if name == 'sge' else ', 105 (failed)'} and has forgotten 101 and 104: reported "
+                                    f"{({j: s.name for j, s in got.items()})}")
                     break
     finally:
         env.close()
@@ -273,6 +276,21 @@ def check_call_failures(problems):
                                         f"as job {be._tracked_jobs['a']!r}")
                 except Exception as e:
                     problems.append(f"failures: {name}: {cmd[name]} failed ({kind}): {type(e).__name__}: {e} instead of BackendError")
+                # garbage output with exit status 0 (C09's third failure kind): where the backend expects a particular
+                # reply (LSF's "Job <id> is submitted ..."), a reply without an id must not be recorded as an accepted job
+                if name == "lsf" and kind == "non-zero exit":
+                    out3 = _truth_outputs({})
+                    out3[cmd[name]] = "Request aborted by esub. Job not submitted.\n"
+                    env.outputs(out3)
+                    be3 = TrackingBackend(env.dir, name=name + "g", ops=o)
+                    try:
+                        be3.submit(t, [])
+                        problems.append(f"failures: lsf: bsub printed no job id (garbage output, exit 0) but submit() returned "
+                                        f"normally and tracks job {be3._tracked_jobs.get('a')!r} for the target")
+                    except Exception:
+                        if "a" in be3._tracked_jobs:
+                            problems.append(f"failures: lsf: bsub printed no job id: an exception was raised, yet the target is "
+                                            f"tracked as job {be3._tracked_jobs['a']!r}")
                 # a failing STATUS query must not be mistaken for "the scheduler has forgotten the job"
                 stat = {"slurm": "squeue", "sge": "qstat", "lsf": "bjobs"}[name]
                 out2 = _truth_outputs({"77": "R"})
@@ -312,7 +330,9 @@ def check_scripts(problems):
             for sub in ("plain", "my dir", "a'b", "semi;colon"):
                 wd = os.path.join(env.dir, sub)
                 os.makedirs(wd, exist_ok=True)
-                spec = "pwd > where.txt\nfalse\ntouch after_failure.txt\n"
+                # the spec contains a carriage return, a form feed and a Unicode line separator inside a quoted string:
+                # verbatim means verbatim
+                spec = "pwd > where.txt\nprintf '%s' 'a\rb\x0cc\u2028d' > odd.txt\nfalse\ntouch after_failure.txt\n"
                 t = target(env, wd=wd, spec=spec, **{k: v for k, v in defaults.items() if v is not None})
                 script = o.compile_script(t)
                 other = os.path.join(env.dir, "elsewhere")
